@@ -1,7 +1,9 @@
 /-
 EPA, invariants of the executable loop that *are* proved: every face of every reachable
 polytope state is either one of the initial faces or was created by `extend_with_point`, and
-its stored normal is a unit vector (or, only for a degenerate initial face, the zero vector).
+its stored normal is a unit vector (or, only for a zero-area initial face of a flat simplex, the
+zero vector).  Stated for any winding repair that keeps or negates the normal (`FixOk`: the
+current `fixCcw` and the pre-repair `fixCcw_asIs_before_fix`).
 -/
 import D3.Proofs.EpaInit
 
@@ -74,13 +76,13 @@ theorem scan_subset (maxLoose : Nat) (eps : ℝ) (w : V) :
 /-- both variants of the winding repair keep or negate the normal -/
 def FixOk (fix : Face ℝ → Face ℝ) : Prop := ∀ f, (fix f).n = f.n ∨ (fix f).n = -f.n
 
-theorem fixOk_asIs (bias : ℝ) : FixOk (fixCcwAsIs bias) := by
-  intro f; unfold fixCcwAsIs; split
+theorem fixOk_before_fix (bias : ℝ) : FixOk (fixCcw_asIs_before_fix bias) := by
+  intro f; unfold fixCcw_asIs_before_fix; split
   · exact Or.inr rfl
   · exact Or.inl rfl
 
-theorem fixOk_fixed (bias : ℝ) : FixOk (fixCcwFixed bias) := by
-  intro f; unfold fixCcwFixed; split
+theorem fixOk_cur (bias : ℝ) : FixOk (fixCcw bias) := by
+  intro f; unfold fixCcw; split
   · exact Or.inr rfl
   · exact Or.inl rfl
 
@@ -148,21 +150,31 @@ theorem loop_pred {P : V → Prop} (hP : NormalPred P) {fix : Face ℝ → Face 
       · rename_i faces' _ _ _ hst
         exact loop_pred hP hfix k (it + 1) faces' _ r h (stepWith_grown_pred hP hfix hst hin)
 
-theorem initFaces_unitOrZero (s0 s1 s2 s3 : V) : ∀ g ∈ initFaces s0 s1 s2 s3, UnitOrZero g.n := by
+theorem buildFaces_unitOrZero (s0 s1 s2 s3 : V) : ∀ g ∈ buildFaces s0 s1 s2 s3, UnitOrZero g.n := by
   intro g hg
-  simp only [initFaces, List.mem_cons, List.not_mem_nil, or_false] at hg
+  simp only [buildFaces, List.mem_cons, List.not_mem_nil, or_false] at hg
   rcases hg with rfl | rfl | rfl | rfl <;> (rw [mkFace_n]; exact normVector_unitOrZero _)
 
-theorem initFaces_unit {s0 s1 s2 s3 : V} (h : orient s0 s1 s2 s3 ≠ 0) :
-    ∀ g ∈ initFaces s0 s1 s2 s3, IsUnitVec g.n := by
+theorem buildFaces_unit {s0 s1 s2 s3 : V} (h : orient s0 s1 s2 s3 ≠ 0) :
+    ∀ g ∈ buildFaces s0 s1 s2 s3, IsUnitVec g.n := by
   obtain ⟨h1, h2, h3, h4⟩ := raw_normals_pos h
   intro g hg
-  simp only [initFaces, List.mem_cons, List.not_mem_nil, or_false] at hg
+  simp only [buildFaces, List.mem_cons, List.not_mem_nil, or_false] at hg
   rcases hg with rfl | rfl | rfl | rfl <;> rw [mkFace_n]
   · exact normVector_unit h1
   · exact normVector_unit h2
   · exact normVector_unit h3
   · exact normVector_unit h4
+
+theorem initFaces_unitOrZero (s0 s1 s2 s3 : V) : ∀ g ∈ initFaces s0 s1 s2 s3, UnitOrZero g.n := by
+  rcases initFaces_oriented s0 s1 s2 s3 with ⟨e, _⟩ | ⟨e, _⟩ <;> rw [e] <;>
+    exact buildFaces_unitOrZero _ _ _ _
+
+theorem initFaces_unit {s0 s1 s2 s3 : V} (h : orient s0 s1 s2 s3 ≠ 0) :
+    ∀ g ∈ initFaces s0 s1 s2 s3, IsUnitVec g.n := by
+  rcases initFaces_oriented s0 s1 s2 s3 with ⟨e, _⟩ | ⟨e, h'⟩ <;> rw [e]
+  · exact buildFaces_unit h
+  · exact buildFaces_unit (ne_of_lt h')
 
 end Epa
 end D3
